@@ -6,6 +6,8 @@
 //! block and a mismatching block is re-run element by element through the single-request protocol
 //! (`codec enc …` / `codec dec …`) comparing canonical text, which yields the first differing inputs.
 //! Work is spread over up to 8 worker threads, each with its own model process.
+// catch-all arms keep the harness compiling when the crate adds a variant to one of its error enums (the outcome is then `unknown:<Debug>`)
+#![allow(unreachable_patterns)]
 use std::collections::HashSet;
 use std::sync::atomic::{AtomicUsize, Ordering};
 use std::sync::Mutex;
@@ -237,6 +239,7 @@ fn real_enc_into(i: &Instruction, cap: usize) -> Enc
 		Ok((Ok(n), out)) => Enc::Ok(n, out),
 		Ok((Err(EncodeError::Unrepresentable), _)) => Enc::Unrep,
 		Ok((Err(EncodeError::Overflow{need, have}), _)) => Enc::Overflow(need, have),
+		Ok((Err(e), _)) => Enc::Panic(format!("unknown:{e:?}")),
 		Err(p) => Enc::Panic(p),
 	}
 }
@@ -269,6 +272,7 @@ fn show_dec(d: &Dec) -> String
 		Ok(Err(DecodeError::Undefined{instr0, instr1})) => format!("err undefined {instr0:04x} {}", show_h1(instr1)),
 		Ok(Err(DecodeError::Unpredictable{instr0, instr1})) => format!("err unpredictable {instr0:04x} {}", show_h1(instr1)),
 		Ok(Err(DecodeError::Reserved{instr0, instr1})) => format!("err reserved {instr0:04x} {}", show_h1(instr1)),
+		Ok(Err(e)) => format!("err unknown:{e:?}"),
 		Err(p) => format!("PANIC: {p}"),
 	}
 }
@@ -300,6 +304,7 @@ fn mix_dec(h: u64, d: &Result<(usize, Instruction), DecodeError>) -> u64
 		Err(DecodeError::Undefined{instr0, instr1}) => mix_h1(mix(mix(h, 3), *instr0 as u64), instr1),
 		Err(DecodeError::Unpredictable{instr0, instr1}) => mix_h1(mix(mix(h, 4), *instr0 as u64), instr1),
 		Err(DecodeError::Reserved{instr0, instr1}) => mix_h1(mix(mix(h, 5), *instr0 as u64), instr1),
+		Err(e) => fnv(mix(h, 6), format!("unknown:{e:?}").as_bytes()),
 	}
 }
 
@@ -815,6 +820,7 @@ fn c03_oracle(b: &[u8], d: &Dec, found: &mut Found)
 				found.fail(input(), format!("classified error `{}` does not name the supplied halfwords / was returned although bytes are missing", show_dec(d)));
 			}
 		},
+		Ok(Err(e)) => found.fail(input(), format!("decode returned an error of a kind the property does not name: unknown:{e:?}")),
 	}
 }
 
@@ -823,7 +829,7 @@ fn kind_of(d: &Dec) -> &'static str
 	match d
 	{
 		Ok(Ok(_)) => "dec ok", Ok(Err(DecodeError::Underflow{..})) => "dec underflow", Ok(Err(DecodeError::Undefined{..})) => "dec undefined",
-		Ok(Err(DecodeError::Unpredictable{..})) => "dec unpredictable", Ok(Err(DecodeError::Reserved{..})) => "dec reserved", Err(_) => "dec PANIC",
+		Ok(Err(DecodeError::Unpredictable{..})) => "dec unpredictable", Ok(Err(DecodeError::Reserved{..})) => "dec reserved", Ok(Err(_)) => "dec unknown", Err(_) => "dec PANIC",
 	}
 }
 
@@ -884,7 +890,7 @@ fn dec_block(job: &DecJob, model: &mut Model) -> Found
 				dg = mix_dec(dg, &d);
 				let dd: Dec = Ok(d);
 				cnt[match &dd {Ok(Ok(_)) => 0, Ok(Err(DecodeError::Underflow{..})) => 1, Ok(Err(DecodeError::Undefined{..})) => 2,
-					Ok(Err(DecodeError::Unpredictable{..})) => 3, Ok(Err(DecodeError::Reserved{..})) => 4, Err(_) => 5}] += 1;
+					Ok(Err(DecodeError::Unpredictable{..})) => 3, Ok(Err(DecodeError::Reserved{..})) => 4, Ok(Err(_)) => 5, Err(_) => 5}] += 1;
 				if let Ok(Ok((_, i))) = &dd
 				{
 					ok += 1;
